@@ -39,6 +39,7 @@ class ExtractError(Exception):
 
 
 KEEP_DERIVES = ('Copy', 'Clone', 'PartialEq', 'Eq')
+EXTRA_KEEP = []   # per-item additions, set by `//@ item ... +derive(Debug)`
 TRACE_MACROS = ('trace', 'debug', 'info', 'warn', 'error')
 
 
@@ -78,8 +79,8 @@ def strip_attrs_and_docs(text, rules, keep_pub=True):
                 continue
             if inner.startswith('derive('):
                 names = [x for x in inner[len('derive('):-1].split(',') if x]
-                kept = [x for x in names if x in KEEP_DERIVES]
-                dropped = [x for x in names if x not in KEEP_DERIVES]
+                kept = [x for x in names if x in KEEP_DERIVES or x in EXTRA_KEEP]
+                dropped = [x for x in names if x not in KEEP_DERIVES and x not in EXTRA_KEEP]
                 if dropped:
                     rules.hit('R2', 'derive(%s)' % ','.join(dropped))
                 if kept:
@@ -415,7 +416,10 @@ def stmt_end(code, pos, limit):
             continue
         if c == ';':
             return j + 1
-        if c in CLOSE:
+        if c in ')]':
+            j += 1      # the anchor text ended inside a parenthesised group: keep going outwards
+            continue
+        if c == '}':
             return j
         j += 1
     return limit
@@ -522,8 +526,9 @@ def weave_fn(text, w, rules, vacuity=False, name='?'):
     sigcode = code[sig_a:body_open]
     spec = w.spec
     if vacuity and not w.novacuity:
-        if re.search(r'\bensures\b', blank_noncode(spec)):
-            spec = spec.rstrip().rstrip(',') + ',\n        false,\n'
+        em = re.search(r'\bensures\b', blank_noncode(spec))
+        if em:
+            spec = spec[:em.end()] + ' false,' + spec[em.end():]
         else:
             # ensures must come before decreases
             sc = blank_noncode(spec)
@@ -622,6 +627,11 @@ def build_unit(unit_path, vacuity=False):
             i += 1
             continue
         if d.startswith('item '):
+            del EXTRA_KEEP[:]
+            mk = re.search(r'\s\+derive\(([A-Za-z, ]+)\)\s*$', d)
+            if mk:
+                EXTRA_KEEP.extend(x.strip() for x in mk.group(1).split(','))
+                d = d[:mk.start()]
             f, path = split_path(d[5:])
             f = aliases.get(f, f)
             src = get_source(f)
@@ -630,6 +640,7 @@ def build_unit(unit_path, vacuity=False):
             except ScanError as e:
                 raise ExtractError(str(e))
             txt = transform(src.text[it.start:it.end], rules, it.kind)
+            del EXTRA_KEEP[:]
             a, b = emit('// ---- extracted item: %s :: %s\n' % (f, ' :: '.join(path)) + txt)
             items.append({'file': f, 'path': ' :: '.join(path), 'gen_lines': [a, b]})
             i += 1
@@ -708,6 +719,18 @@ def build_unit(unit_path, vacuity=False):
             fns.append({'file': f, 'path': fname, 'name': it.name, 'gen_lines': [a, b],
                         'src_lines': [src.text.count('\n', 0, it.start) + 1, src.text.count('\n', 0, it.end) + 1],
                         'novacuity': skip_vac})
+            continue
+        if d.startswith('require '):
+            # existence check of an item the template mirrors by hand (trait declarations, external bodies)
+            f, path = split_path(d[8:])
+            f = aliases.get(f, f)
+            src = get_source(f)
+            try:
+                src.find(path)
+            except ScanError as e:
+                raise ExtractError(str(e))
+            items.append({'file': f, 'path': 'require ' + ' :: '.join(path), 'gen_lines': [0, 0]})
+            i += 1
             continue
         if d.startswith('label') or d.startswith('#'):
             i += 1
